@@ -229,7 +229,7 @@ package services
 //@             (forall x Id :: topics.exists(x) && topics.deleted_at$null(x) && hasPrefix(topics.name(x), concat(req.Project, "/topics/")) && after_token(x, req.PageToken) && x <= uuidparse(resp.NextPageToken) ==>
 //@                (exists k int :: 0 <= k && k < len(resp.Topics) && resp.Topics[k].Name == topics.name(x)))
 //@   ensures page_ascending: [C12] err == nil ==> (forall j int, k int :: {resp.Topics[j].Name, resp.Topics[k].Name} 0 <= j && j < k && k < len(resp.Topics) ==>
-//@             (exists x Id, y Id :: x < y && topics.exists(x) && topics.deleted_at$null(x) && hasPrefix(topics.name(x), concat(req.Project, "/topics/")) && after_token(x, req.PageToken) && topics.exists(y) && topics.deleted_at$null(y) && hasPrefix(topics.name(y), concat(req.Project, "/topics/")) && after_token(y, req.PageToken) && topics.name(x) == resp.Topics[j].Name && topics.name(y) == resp.Topics[k].Name))
+//@             (exists x Id, y Id :: {topics.name(x), topics.name(y)} x < y && topics.exists(x) && topics.deleted_at$null(x) && hasPrefix(topics.name(x), concat(req.Project, "/topics/")) && after_token(x, req.PageToken) && topics.exists(y) && topics.deleted_at$null(y) && hasPrefix(topics.name(y), concat(req.Project, "/topics/")) && after_token(y, req.PageToken) && topics.name(x) == resp.Topics[j].Name && topics.name(y) == resp.Topics[k].Name))
 //@   ensures next_token: [C12] err == nil && len(resp.Topics) >= page_limit(req.PageSize) ==>
 //@             (exists x Id :: topics.exists(x) && topics.deleted_at$null(x) && resp.NextPageToken == uuidstr(x) && topics.name(x) == resp.Topics[len(resp.Topics) - 1].Name &&
 //@                (forall y Id :: y > x ==> after_token(y, resp.NextPageToken)) && (forall y Id :: after_token(y, resp.NextPageToken) ==> y > x))
@@ -258,7 +258,7 @@ package services
 //@             (forall x Id :: subscriptions.exists(x) && subscriptions.deleted_at$null(x) && hasPrefix(subscriptions.name(x), concat(req.Project, "/subscriptions/")) && after_token(x, req.PageToken) && x <= uuidparse(resp.NextPageToken) ==>
 //@                (exists k int :: 0 <= k && k < len(resp.Subscriptions) && resp.Subscriptions[k].Name == subscriptions.name(x)))
 //@   ensures page_ascending: [C12] err == nil ==> (forall j int, k int :: {resp.Subscriptions[j].Name, resp.Subscriptions[k].Name} 0 <= j && j < k && k < len(resp.Subscriptions) ==>
-//@             (exists x Id, y Id :: x < y && subscriptions.exists(x) && subscriptions.deleted_at$null(x) && hasPrefix(subscriptions.name(x), concat(req.Project, "/subscriptions/")) && after_token(x, req.PageToken) && subscriptions.exists(y) && subscriptions.deleted_at$null(y) && hasPrefix(subscriptions.name(y), concat(req.Project, "/subscriptions/")) && after_token(y, req.PageToken) && subscriptions.name(x) == resp.Subscriptions[j].Name && subscriptions.name(y) == resp.Subscriptions[k].Name))
+//@             (exists x Id, y Id :: {subscriptions.name(x), subscriptions.name(y)} x < y && subscriptions.exists(x) && subscriptions.deleted_at$null(x) && hasPrefix(subscriptions.name(x), concat(req.Project, "/subscriptions/")) && after_token(x, req.PageToken) && subscriptions.exists(y) && subscriptions.deleted_at$null(y) && hasPrefix(subscriptions.name(y), concat(req.Project, "/subscriptions/")) && after_token(y, req.PageToken) && subscriptions.name(x) == resp.Subscriptions[j].Name && subscriptions.name(y) == resp.Subscriptions[k].Name))
 //@   ensures next_token: [C12] err == nil && len(resp.Subscriptions) >= page_limit(req.PageSize) ==>
 //@             (exists x Id :: subscriptions.exists(x) && subscriptions.deleted_at$null(x) && resp.NextPageToken == uuidstr(x) && subscriptions.name(x) == resp.Subscriptions[len(resp.Subscriptions) - 1].Name &&
 //@                (forall y Id :: y > x ==> after_token(y, resp.NextPageToken)) && (forall y Id :: after_token(y, resp.NextPageToken) ==> y > x))
@@ -287,7 +287,7 @@ package services
 //@             (forall x Id :: snapshots.exists(x) && hasPrefix(snapshots.name(x), concat(req.Project, "/snapshots/")) && after_token(x, req.PageToken) && x <= uuidparse(resp.NextPageToken) ==>
 //@                (exists k int :: 0 <= k && k < len(resp.Snapshots) && resp.Snapshots[k].Name == snapshots.name(x)))
 //@   ensures page_ascending: [C12] err == nil ==> (forall j int, k int :: {resp.Snapshots[j].Name, resp.Snapshots[k].Name} 0 <= j && j < k && k < len(resp.Snapshots) ==>
-//@             (exists x Id, y Id :: x < y && snapshots.exists(x) && hasPrefix(snapshots.name(x), concat(req.Project, "/snapshots/")) && after_token(x, req.PageToken) && snapshots.exists(y) && hasPrefix(snapshots.name(y), concat(req.Project, "/snapshots/")) && after_token(y, req.PageToken) && snapshots.name(x) == resp.Snapshots[j].Name && snapshots.name(y) == resp.Snapshots[k].Name))
+//@             (exists x Id, y Id :: {snapshots.name(x), snapshots.name(y)} x < y && snapshots.exists(x) && hasPrefix(snapshots.name(x), concat(req.Project, "/snapshots/")) && after_token(x, req.PageToken) && snapshots.exists(y) && hasPrefix(snapshots.name(y), concat(req.Project, "/snapshots/")) && after_token(y, req.PageToken) && snapshots.name(x) == resp.Snapshots[j].Name && snapshots.name(y) == resp.Snapshots[k].Name))
 //@   ensures next_token: [C12] err == nil && len(resp.Snapshots) >= page_limit(req.PageSize) ==>
 //@             (exists x Id :: snapshots.exists(x) && resp.NextPageToken == uuidstr(x) && snapshots.name(x) == resp.Snapshots[len(resp.Snapshots) - 1].Name &&
 //@                (forall y Id :: y > x ==> after_token(y, resp.NextPageToken)) && (forall y Id :: after_token(y, resp.NextPageToken) ==> y > x))
@@ -314,7 +314,7 @@ package services
 //@             (forall x Id :: subscriptions.exists(x) && subscriptions.deleted_at$null(x) && live_topic(subscriptions.topic_id(x)) && topics.name(subscriptions.topic_id(x)) == req.Topic && after_token(x, req.PageToken) && x <= uuidparse(resp.NextPageToken) ==>
 //@                (exists k int :: 0 <= k && k < len(resp.Subscriptions) && resp.Subscriptions[k] == subscriptions.name(x)))
 //@   ensures page_ascending: [C12] err == nil ==> (forall j int, k int :: {resp.Subscriptions[j], resp.Subscriptions[k]} 0 <= j && j < k && k < len(resp.Subscriptions) ==>
-//@             (exists x Id, y Id :: x < y && subscriptions.exists(x) && subscriptions.deleted_at$null(x) && live_topic(subscriptions.topic_id(x)) && topics.name(subscriptions.topic_id(x)) == req.Topic && after_token(x, req.PageToken) && subscriptions.exists(y) && subscriptions.deleted_at$null(y) && live_topic(subscriptions.topic_id(y)) && topics.name(subscriptions.topic_id(y)) == req.Topic && after_token(y, req.PageToken) && subscriptions.name(x) == resp.Subscriptions[j] && subscriptions.name(y) == resp.Subscriptions[k]))
+//@             (exists x Id, y Id :: {subscriptions.name(x), subscriptions.name(y)} x < y && subscriptions.exists(x) && subscriptions.deleted_at$null(x) && live_topic(subscriptions.topic_id(x)) && topics.name(subscriptions.topic_id(x)) == req.Topic && after_token(x, req.PageToken) && subscriptions.exists(y) && subscriptions.deleted_at$null(y) && live_topic(subscriptions.topic_id(y)) && topics.name(subscriptions.topic_id(y)) == req.Topic && after_token(y, req.PageToken) && subscriptions.name(x) == resp.Subscriptions[j] && subscriptions.name(y) == resp.Subscriptions[k]))
 //@   ensures next_token: [C12] err == nil && len(resp.Subscriptions) >= page_limit(req.PageSize) ==>
 //@             (exists x Id :: subscriptions.exists(x) && resp.NextPageToken == uuidstr(x) && subscriptions.name(x) == resp.Subscriptions[len(resp.Subscriptions) - 1] &&
 //@                (forall y Id :: y > x ==> after_token(y, resp.NextPageToken)) && (forall y Id :: after_token(y, resp.NextPageToken) ==> y > x))
